@@ -117,7 +117,7 @@ static bool expected(int op, const State &A, const State *B, cq va, cq vb, cq &o
 }
 
 enum { K_CHECKED, K_SKIP_POLE, K_SKIP_NONFINITE, K_SKIP_NEARCUT, K_SKIP_OTHER, K_THROW, K_POINTS, K_RESULT_NONFINITE_CLASS,
-       K_FLOATTOL };
+       K_FLOATTOL, K_SKIP_HUGE, K_SKIP_SIGNEDZERO, K_SKIP_FLOATRANGE };
 
 static StateSet SS;
 
@@ -129,6 +129,22 @@ static void check_transition(int op, int ia, int ib, Ctx &c)
     RCP<const Basic> r;
     c.eval();
     std::string recipe = std::string(OPN[op]) + "(" + A.recipe + (B ? ", " + B->recipe : "") + ")";
+    // astronomically large exact powers (4**(4**4), 2**(3**300)) exhaust GMP ("overflow in mpz type" aborts the process):
+    // a resource limit of exact arithmetic, not a value-preservation matter -- skipped and counted
+    if (op == POW && is_a_Number(*B->e) && SV[ib].v[0][0].ok
+        && ((absq(SV[ib].v[0][0].v) > 64 && is_a_Number(*A.e)) || absq(SV[ib].v[0][0].v) > 4096)) {
+        c.count(K_SKIP_HUGE);
+        return;
+    }
+    // a complex double base on the negative real axis carries a SIGNED zero imaginary part that selects the side of the
+    // cut (IEEE semantics): the exact-value oracle has no opinion there -- skipped and counted
+    if ((op == POW || op == SQRT || op == CBRT) && is_a<ComplexDouble>(*A.e)) {
+        std::complex<double> z = down_cast<const ComplexDouble &>(*A.e).i;
+        if (z.imag() == 0.0 && z.real() < 0) {
+            c.count(K_SKIP_SIGNEDZERO);
+            return;
+        }
+    }
     try {
         r = apply(op, A.e, B ? B->e : A.e);
     } catch (SymEngineException &x) {
@@ -181,6 +197,10 @@ static void check_transition(int op, int ia, int ib, Ctx &c)
                 acts.push_back(r1.v);
         }
         bool fl = va0.has_float || vb0.has_float || r0.has_float;
+        if (fl && (absq(exps[0]) > 1e290Q || (exps[0] != 0 && absq(exps[0]) < 1e-290Q) || (op == POW && absq(vb0.v) > 600))) {
+            c.count(K_SKIP_FLOATRANGE); // true value outside the double range: overflow/underflow is not a rewrite error
+            continue;
+        }
         rq tol = fl ? 1e-9Q : 1e-25Q;
         if (fl)
             c.count(K_FLOATTOL);
@@ -234,7 +254,8 @@ int main(int argc, char **argv)
     std::vector<std::string> cn = {"transitions_value_checked", "points_skipped_pole", "points_skipped_nonfinite_expected",
                                    "points_skipped_near_cut", "points_skipped_other", "transitions_library_refused(exception)",
                                    "grid_points_compared", "points_result_nonfinite_class(zoo/nan/inf; judged by C06)",
-                                   "points_compared_with_float_tolerance"};
+                                   "points_compared_with_float_tolerance", "transitions_skipped_number**(|exponent|>64)", "transitions_skipped_complex_double_base_with_signed_zero_on_cut",
+                                   "points_skipped_value_outside_double_range"};
     Run &Rn = run();
 
     // ---- layer 1: every op on leaves
@@ -334,6 +355,7 @@ int main(int argc, char **argv)
         l3.name = "L3:op(S2',S0)+op(S0,S2')";
         l3.n = (n2 - n1) * n0 * NBIN * 2;
         l3.counter_names = cn;
+        l3.hang_s = 8;
         auto dec3 = [&](long long i, int &op, int &ia, int &ib) {
             op = i % NBIN;
             long long j = i / NBIN;
